@@ -68,7 +68,7 @@ func buildSerWorld(rt *rapid.T, cfg sessCfg, pre []string) *serWorld {
 	}
 	h0, h1 := s.agents[0].id.nodeID, s.agents[1].id.nodeID
 	for _, c := range []int{2, 3} {
-		if _, err := s.update(c, []string{h0, h1}, 1, false, false); err != nil {
+		if _, err := s.update(c, []string{h0, h1}, 1, false, false); err != nil && !(cfg.Min != nil && classifyErr(err).Kind == "lowbalance") {
 			rt.Fatalf("setup update: %v", err)
 		}
 		// the clients' billing periods differ, so their per-peer charges differ
